@@ -818,6 +818,17 @@ class C05(Property):
                         for j in (range(len(calls)) if (ow == 0 and (full or who == 0 or ei < 2)) else ()):
                             yield dict(first, hist=[sv(2, who=who, plan=[[j, 'A']])])
                         yield dict(first, hist=[sv(2, who=who), ['d'], sv(3, who=who, plan=[[k, SITE_ERRNO[calls[k]]]]), sv(4, who=who)])
+        # h. (round 5) the module-level helpers called by somebody else between the uses - every argument form, succeeding,
+        #    failing with a "cannot do it here" errno, failing because the target exists - then saves that meet interference
+        helper = [(0, 0), (1, 0), (2, 0), (3, 0), (4, 0), (0, 'x'), (2, 'x')] + [(fm, e) for e in taw[:4] for fm in (0, 2, 1)]
+        for hi, (fm, fault) in enumerate(helper):
+            for ow in (0, 1):
+                base = mk(ow=ow, dm=None if ow == 0 else 0o644, plan=[])
+                ncalls = len(self.learn_calls(base))
+                yield dict(base, hist=[['r', fm, fault], sv(2), ['d'], ['r', fm, fault], sv(3, who='n')])
+                if ow == 0:
+                    for j in (range(ncalls) if (full or hi % 3 == 0) else (ncalls - 2, ncalls - 1)):
+                        yield dict(base, hist=[['d'], ['r', fm, fault], sv(2, who=hi % 2 and 'n' or 0, plan=[[j, 'A']])])
         # e. every single fault position of the SECOND save of a history (and of the third)
         sel = [(mk(dm=0o644, plan=[]), moves[0]), (mk(dm=None, plan=[]), moves[4]), (mk(dm=0o600, perms=0o640, plan=[]), moves[2]),
                (mk(ow=0, dm=None, plan=[]), moves[2]), (mk(dm=0o644, txt=1, plan=[]), moves[3])]
@@ -1005,6 +1016,8 @@ class C05(Property):
         for st, so in zip(case['hist'], obs['steps']):
             if st[0] == 's':
                 words.append(sv(so, list(st[1].get('ops') or []), st[1].get('raises', 0)))
+            elif st[0] == 'r':
+                continue        # somebody else's call on unrelated files: no step of the model
             elif st[0] in 'pP':
                 words.append('E/%s%d:%s' % (st[0], st[1], st[2]))
             elif st[0] in 'dQ':
@@ -1176,7 +1189,42 @@ class C05(Property):
             elif kind == 'Q':
                 if os.path.lexists(part):
                     os.unlink(part)
+            elif kind == 'r':
+                self.helper_call(fu, d, st[1], st[2])
             steps.append({'env': kind, 'dest': look(dest), 'part': look(part)})
+
+    @staticmethod
+    def helper_call(fu, d, form, fault):
+        """(round 5) the module-level helpers the saver publishes with, called by SOMEBODY ELSE on two unrelated files of the
+        same directory, in each argument form they accept - and failing (an injected errno at their first call, or the target
+        existing): whatever they learn or leave behind must not change what a later save does"""
+        a, b = os.path.join(d, 'other-a.tmp'), os.path.join(d, 'other-b.tmp')
+        with open(a, 'wb') as f:
+            f.write(b'unrelated')
+        if fault == 'x':
+            with open(b, 'wb') as f:
+                f.write(b'in the way')
+        spy = Spy5(b, plan={0: fault} if isinstance(fault, int) and fault else {})
+        try:
+            spy.install()
+            try:
+                if form == 0:
+                    fu.atomic_rename(a, b)
+                elif form == 1:
+                    fu.atomic_rename(a, b, True)
+                elif form == 2:
+                    fu.atomic_rename(src=a, dst=b, overwrite=False)
+                elif form == 3:
+                    fu.replace(a, b)
+                else:
+                    fu._atomic_rename(a, b, overwrite=True)
+            finally:
+                spy.uninstall()
+        except Exception:
+            pass
+        for p in (a, b):
+            if os.path.lexists(p):
+                os.unlink(p)
 
     def one_save(self, fu, d, dest, kw, ops, raises, plan, txt, rel=None, chdir_to=None, holder=None, cloexec=False, forms=None):
         forms = forms or {}
@@ -1286,7 +1334,8 @@ class C05(Property):
             return s
         if case.get('hist') is not None:
             return ' | '.join([half(obs['first'])] + [
-                ('env dest=%s part=%s' % (f(so['dest']), f(so['part']))) if 'env' in so else half(so) for so in obs['steps']])
+                ('env dest=%s part=%s' % (f(so['dest']), f(so['part']))) if 'env' in so else half(so) for so in obs['steps']
+                if so.get('env') != 'r'])
         return half(obs['first']) + ' | ' + half(obs['retry'])
 
     def render_ref(self, obs):
@@ -1376,8 +1425,18 @@ class C05(Property):
         (measured just before it: destination, part file, umask) - whatever the same saver object did or saw before"""
         k = 1
         told = ['save #1']
+        prev_dest, prev_part = obs['first']['dest'], obs['first']['part']
         for st, so in zip(case['hist'], obs['steps']):
+            if st[0] == 'r':
+                told.append('somebody calls %s on two unrelated files%s' % (
+                    ('atomic_rename(a, b)', 'atomic_rename(a, b, True)', 'atomic_rename(src=, dst=, overwrite=False)', 'replace(a, b)',
+                     '_atomic_rename(a, b, overwrite=True)')[st[1]], '' if not st[2] else ' (failing: %s)' % (st[2],)))
+                if so['dest'] != prev_dest or so['part'] != prev_part:
+                    return Failure('dest-changed', 'history [%s]: a helper call on unrelated files changed the destination / part file: %r -> %r, %r -> %r' % (
+                        '; '.join(told), prev_dest, so['dest'], prev_part, so['part']))
+                continue
             if st[0] != 's':
+                prev_dest, prev_part = so['dest'], so['part']
                 told.append('destination deleted' if st[0] == 'd' else 'part file removed' if st[0] == 'Q' else
                             ('chmod %o', 'destination replaced by another writer (mode %o)', 'umask %o',
                              'a part file (mode %o) appears')['cpuP'.index(st[0])] % st[1])
@@ -1399,6 +1458,7 @@ class C05(Property):
             told.append('save #%d (%s)' % (k, {0: 'the same AtomicSaver object', 1: 'a second long-lived AtomicSaver object',
                                                  'n': 'a fresh saver'}.get(who, who)))
             f = self.judge_save(sub, so)
+            prev_dest, prev_part = so['dest'], so['part']
             if not so['pub']:
                 self._nt = True
             if f is not None:
